@@ -1,5 +1,6 @@
 """C14 Resource exhaustion"""
 import elin
+import eoom
 
 LEVEL = "E-LIN restricted to the error paths"
 CRATES = ("oxidd_rules_bdd", "oxidd_rules_zbdd", "oxidd_rules_mtbdd", "oxidd_rules_tdd", "oxidd_dump",
@@ -14,4 +15,8 @@ def run(ctx):
                 "oxidd-reorder, the managers and the FFI crate are inspected.")
     st = elin.run(ctx, F, crates=CRATES)
     ctx.floor("E-LIN", "function bodies analysed", st["bodies"], 2500)
-    ctx.not_decided = "validity of handles after failure, success on retry, absence of abort/panic on OOM (planned rule)"
+    ctx.explain("E-OOM: Result<_, OutOfMemory>::unwrap/expect is applied only to get_terminal of managers with static "
+                "terminals; std::process::abort is reachable only through the reviewed sites (AbortOnDrop, rc overflow "
+                "guards). The two by-design abort-on-OOM sites are known findings.")
+    eoom.run(ctx, F)
+    ctx.not_decided = "validity of handles after failure, success on retry, panics other than AllocResult unwraps"
